@@ -1,6 +1,7 @@
+#[cfg(not(yift_jawk_verif))]
+use std::fs::File;
 use std::{
     fmt::Display,
-    fs::File,
     io::{BufReader, Bytes, Read, Result},
     path::PathBuf,
 };
@@ -19,8 +20,16 @@ pub struct Reader<R: Read> {
     eof: bool,
 }
 
-pub fn from_file(file_name: &PathBuf) -> Result<Reader<BufReader<File>>> {
+#[cfg(not(yift_jawk_verif))]
+type InputFile = File;
+#[cfg(yift_jawk_verif)]
+type InputFile = crate::verif::InputFile;
+
+pub fn from_file(file_name: &PathBuf) -> Result<Reader<BufReader<InputFile>>> {
+    #[cfg(not(yift_jawk_verif))]
     let file = File::open(file_name)?;
+    #[cfg(yift_jawk_verif)]
+    let file = crate::verif::open_input_file(file_name)?;
     let reader = BufReader::new(file);
     Ok(Reader::new(
         reader,
